@@ -118,7 +118,11 @@ class WMSSource(MapLayer):
             if request_srs is None:
                 return self._get_transformed(query, format)
             if query.srs.srs_code != request_srs.srs_code:
-                query.srs = request_srs
+                # the query is shared with the other sources/layers of the request,
+                # which are rendered concurrently: do not modify it
+                query = MapQuery(query.bbox, query.size, request_srs, query.format,
+                                 transparent=query.transparent, tiled_only=query.tiled_only,
+                                 dimensions=query.dimensions)
         if self.extent and not self.extent.contains(MapExtent(query.bbox, query.srs)):
             return self._get_sub_query(query, format)
         resp = self.client.retrieve(query, format)
